@@ -22,9 +22,17 @@ def terminal_time(events):
     return None
 
 
-@harness(instances=lambda tier: pipe.instances(tier, 2, 3, nmin=1), timeout=(90, 900), **pipe.params(with_k=True))
+def _rinst(tier):
+    out = pipe.instances(tier, 2, 3, nmin=1, lean=True)
+    if tier == "quick":
+        # queued inner sources need two outer elements: the fault position is split over instances to fit the quick budget
+        out += [{"op": o, "N": 2, "k": k} for o in ("merge_max", "concat_map") for k in range(0, 5)]
+    return out
+
+
+@harness(instances=_rinst, timeout=(120, 900), **pipe.params(with_k=True))
 def h_release(a, inst):
-    r = pipe.run(a, inst, k=a.k)
+    r = pipe.run(a, inst, k=inst["k"] if "k" in inst else a.k)
     if r.escaped is not None:
         return True  # an escaping callback exception is C09's subject, not a release question
     T = terminal_time(r.events)
